@@ -3,6 +3,7 @@
 The driver only GENERATES expression trees / statements and renders them as BASIC text; every judgement
 (value, error code, admitted alternatives) is made by TLC evaluating Strings.tla on the recorded event."""
 import os, time
+from concurrent.futures import ThreadPoolExecutor
 from decimal import Decimal, getcontext
 from ..session import Sess
 from .. import core
@@ -380,29 +381,43 @@ def run(ctx):
     rng = ctx.rng
     events, info = [], []
     scale = float(os.environ.get('VERIF_C09_SCALE', '1'))
-    n_expr = int(ctx.pick(36000, 600000) * scale)
-    n_stmt = int(ctx.pick(7000, 120000) * scale)
-    chunk = 30000
+    n_expr = int(ctx.pick(36000, 360000) * scale)
+    n_stmt = int(ctx.pick(7000, 70000) * scale)
+    chunk = 12000
     internal = [0]
 
+    pool = ThreadPoolExecutor(max_workers=2)
+    pending = []
+
+    def judge(evs, infs, no):
+        verdicts = ctx.validate('C09_Trace', evs, name='c09_%d' % no)
+        return evs, infs, verdicts
+
     def flush():
+        """Hand the recorded events to TLC (runs beside the driver); verdicts are collected by settle()."""
         if not events:
             return
-        verdicts = ctx.validate('C09_Trace', events)
-        ctx.cov['traces_validated_against_impl'] += 1
-        for (i, clause) in verdicts:
-            e, inf = events[i - 1], info[i - 1]
-            key = {'clause': clause, 'op': inf['op'], 'k': e['k'], 'depth': inf['depth']}
-            if e['k'] == 'err':
-                key['v'] = e['v']
-            key.update(inf['key'])
-            shown = e.get('v') if e['op'] == 'expr' else e.get('after')
-            if isinstance(shown, list):
-                shown = bytes(shown)
-            ctx.reject('C09 %s: %s  [%s] -> %s %r' % (clause, inf['text'], inf['vars'], e['k'], shown), key=key,
-                       data={'event': e, 'text': inf['text']})
+        pending.append(pool.submit(judge, list(events), list(info), len(pending)))
         del events[:]
         del info[:]
+
+    def settle():
+        for fut in pending:
+            evs, infs, verdicts = fut.result()
+            ctx.cov['traces_validated_against_impl'] += 1
+            for (i, clause) in verdicts:
+                e, inf = evs[i - 1], infs[i - 1]
+                key = {'clause': clause, 'op': inf['op'], 'k': e['k'], 'depth': inf['depth']}
+                if e['k'] == 'err':
+                    key['v'] = e['v']
+                key.update(inf['key'])
+                shown = e.get('v') if e['op'] == 'expr' else e.get('after')
+                if isinstance(shown, list):
+                    shown = bytes(shown)
+                ctx.reject('C09 %s: %s  [%s] -> %s %r' % (clause, inf['text'], inf['vars'], e['k'], shown), key=key,
+                           data={'event': e, 'text': inf['text']})
+        del pending[:]
+        pool.shutdown()
 
     g = Gen(rng, 0.12 if ctx.quick() else 0.2)
     d = Driver(ctx, g)
@@ -568,6 +583,7 @@ def run(ctx):
             flush()
     flush()
     d.close()
+    settle()
     ctx.cov['statement_events'] = stmt_count
     ctx.cov['internal_errors'] = internal[0]
     ctx.cov['impl_and_tlc_wall_s'] = round(time.time() - t0, 1)
